@@ -49,7 +49,7 @@ def permute_theta(spec, theta, perm, n, d):
     return out
 
 
-def reference(case, X, y, S, spec, th_cov, th_mean, Q):
+def reference(case, X, y, S, spec, th_cov, th_mean, Q, use_mp=True):
     n = X.shape[0]
     Kxx = rk.ref_build(spec, X, th_cov) + S
     Kqx = rk.ref_call(spec, Q, X, th_cov, n)
@@ -60,7 +60,7 @@ def reference(case, X, y, S, spec, th_cov, th_mean, Q):
         kappa = np.linalg.cond(Kxx)
     if not np.isfinite(kappa) or kappa > 1e10:
         return None, kappa
-    if n <= 10:
+    if use_mp and n <= 10:
         A = mp.matrix(Kxx.tolist())
         r = mp.matrix((y - mx).tolist())
         alpha = mp.lu_solve(A, r)
@@ -236,6 +236,128 @@ def body_relations(case, ctx):
     ctx.nontrivial(nontrivial(case, kappa))
 
 
+# ------------------------------------------------------------------ histories on one regressor
+@st.composite
+def history_cases(draw):
+    case = draw(gc.gp_problems(max_n=12, max_m=3, min_n=2))
+    d, n = case["d"], case["n"]
+    case["q_form"] = "array"
+    sets = [case["queries"]]
+    for _ in range(draw(st.integers(1, 2))):
+        q = []
+        for _ in range(draw(st.sampled_from([len(case["queries"]), len(case["queries"]), draw(st.integers(1, 4))]))):
+            kind = draw(st.sampled_from(["inside", "train", "outside"]))
+            q.append({"kind": "train", "i": draw(st.integers(0, n - 1))} if kind == "train" else
+                     {"kind": kind, "u": [draw(gc.unit if kind == "inside" else st.floats(-3, 4)) for _ in range(d)]})
+        sets.append(q)
+    case["query_sets"] = sets
+    case["alt_theta_u"] = [draw(gc.unit) for _ in case["theta_u"]]
+    case["alt_mean_u"] = [draw(gc.unit) for _ in case["mean_u"]]
+    ops = []
+    for _ in range(draw(st.integers(2, 8))):
+        if draw(st.integers(0, 3)) == 0:
+            ops.append({"op": "switch", "theta": draw(st.integers(0, 1)), "how": draw(st.sampled_from(["fresh", "shared"]))})
+        else:
+            ops.append({"op": draw(st.sampled_from(["call", "posterior", "mean"])), "set": draw(st.integers(0, len(sets) - 1)),
+                        "how": draw(st.sampled_from(["fresh", "shared", "shared"]))})
+    case["ops"] = ops
+    return case
+
+
+def body_history(case, ctx):
+    """a regressor is long-lived: every prediction equals the closed form for the hyper-parameters it holds *now* at the query points
+    passed *in that call*, whatever was asked before and however the caller re-uses its query / hyper-parameter arrays"""
+    X, y, xs, ys = gc.arrays(case)
+    d, n = case["d"], case["n"]
+    spec = case["kernel"]
+    noise_kw, S = gc.noise_matrix(case, ys)
+    thetas = []
+    for tu, mu_ in ((case["theta_u"], case["mean_u"]), (case["alt_theta_u"], case["alt_mean_u"])):
+        sub = dict(case)
+        sub["mean_u"] = mu_
+        thetas.append((gc.mean_theta(sub, X, y, ys)[: rk.mean_n_params(case["mean"], d)], gc.theta_from_unit(spec, case, X, ys, theta_u=tu)))
+    Qs = []
+    for qs in case["query_sets"]:
+        sub = dict(case)
+        sub["queries"] = qs
+        Qs.append(gc.queries(sub, X, xs))
+    refs = {}
+    for t, (th_mean, th_cov) in enumerate(thetas):
+        for k, Q in enumerate(Qs):
+            ref, kappa = reference(case, X, y, S, spec, th_cov, th_mean, Q, use_mp=False)
+            if ref is None or kappa > 1e8:
+                raise Inconclusive("ill-conditioned (kappa > 1e8)")
+            refs[t, k] = (ref, kappa)
+    tag = cls_of(case)
+    try:
+        gp = fit(X.copy(), y.copy(), noise_kw, spec, case["mean"], np.concatenate(thetas[0]), tag)
+    except np.linalg.LinAlgError:
+        raise Inconclusive("Cholesky failed")
+    held = 0
+    tbuf = np.concatenate(thetas[0]).copy()
+    qbufs = {}
+    switched = reused = 0
+    for step, op in enumerate(case["ops"]):
+        with np.errstate(all="ignore"), warnings.catch_warnings():
+            warnings.simplefilter("ignore")
+            if op["op"] == "switch":
+                new = np.concatenate(thetas[op["theta"]])
+                if op["how"] == "shared":
+                    tbuf[:] = new
+                    arg = tbuf
+                else:
+                    arg = new.copy()
+                try:
+                    gp.set_hyperparameters(arg)
+                except np.linalg.LinAlgError:
+                    raise Inconclusive("Cholesky failed")
+                switched += held != op["theta"]
+                held = op["theta"]
+                continue
+            Q = Qs[op["set"]]
+            if op["how"] == "shared":
+                buf = qbufs.get(Q.shape)
+                if buf is None:
+                    buf = qbufs[Q.shape] = Q.copy()
+                else:
+                    reused += not np.array_equal(buf, Q)
+                    buf[:] = Q
+                arg = buf
+            else:
+                arg = Q.copy()
+            ref, kappa = refs[held, op["set"]]
+            f = 1e-8 + 1000 * kappa * EPS
+            tol_mu = f * ref["scale_mu"]
+            prior_var = np.maximum(np.diag(ref["Kqq"]), 1e-300)
+            where = f"call {step} ({op['op']} at query set {op['set']} passed as a {op['how']} array, hyper-parameter vector {held} held) {rk.describe(spec)} n={n} d={d}"
+            if op["op"] == "call":
+                mu, sig = (np.asarray(a, dtype=float) for a in gp(arg))
+                var = sig**2
+                ref_var = np.diag(ref["cov"])
+            elif op["op"] == "posterior":
+                mu, cov = (np.asarray(a, dtype=float) for a in gp.build_posterior(arg))
+                var, ref_var = cov, ref["cov"]
+            else:
+                mu = np.asarray(gp.build_posterior(arg, mean_only=True), dtype=float)
+                var = ref_var = None
+        if mu.shape != (Q.shape[0],):
+            raise Violation(f"history-shape:{tag}", f"{where}: mean shape {mu.shape} for {Q.shape[0]} queries")
+        e = float(np.max(np.abs(mu - ref["mu"]) / tol_mu))
+        ctx.ratio("history-mean", e, 1.0)
+        if not e <= 1:
+            raise Violation(f"history-mean:{tag}", f"{where}: predictive mean {mu.tolist()} vs closed form {ref['mu'].tolist()}")
+        if var is not None:
+            tv = f * (np.sqrt(np.outer(prior_var, prior_var)) if var.ndim == 2 else prior_var)
+            ev = float(np.max(np.abs(np.abs(var) - np.abs(ref_var)) / tv)) if var.shape == np.shape(ref_var) else np.inf
+            ctx.ratio("history-variance", ev, 1.0)
+            if not ev <= 1:
+                raise Violation(f"history-variance:{tag}", f"{where}: predictive (co)variance {np.asarray(var).tolist()} vs closed form {np.asarray(ref_var).tolist()}")
+    ctx.nontrivial(switched >= 1 or reused >= 1)
+    ctx.event(f"switches={min(switched, 2)}")
+    ctx.event(f"query-buffer-reuses={min(reused, 2)}")
+    ctx.event("kernel=" + ("CP" if rk.has(spec, "CP") else spec["k"]))
+
+
 SUBCHECKS = [
     Sub("posterior", lambda t: gc.gp_problems(max_n=25 if t == "thorough" else 16, min_n=2), body_posterior, quick=1400, thorough=50000,
         shards_quick=10, shards_thorough=16,
@@ -243,4 +365,6 @@ SUBCHECKS = [
     Sub("relations", lambda t: gc.gp_problems(max_n=14, max_m=3, min_n=2), body_relations, quick=700, thorough=25000,
         shards_quick=6, shards_thorough=16,
         rule="n >= 3 and (composite / change-point kernel or non-constant mean or d >= 2 or full y_cov), kappa <= 1e10"),
+    Sub("history", lambda t: history_cases(), body_history, quick=700, thorough=25000, shards_quick=7, shards_thorough=16,
+        rule="one regressor whose hyper-parameters are switched, or whose caller re-uses one query array for different points, between predictions"),
 ]
